@@ -7,6 +7,7 @@ import (
 	"fmt"
 	"os"
 	"path/filepath"
+	"runtime/debug"
 	"sort"
 	"time"
 
@@ -84,8 +85,19 @@ type crashNode struct {
 // version check with optional verification/reset, version stamp, visor.New,
 // Init.  (The 15 lines of glue in skycoin.checkAndUpdateDB are re-stated
 // here; everything they call is the real code.)
-func (n *crashNode) startup(variant int) error {
-	db, err := openBolt(n.path)
+func (n *crashNode) startup(variant int) (err error) {
+	// a read of a mapped page that lies beyond the end of a file cut short raises SIGBUS: make it a panic of this
+	// goroutine and report it as the failed start it is
+	debug.SetPanicOnFault(true)
+	defer func() {
+		if r := recover(); r != nil {
+			if _, ok := r.(sim.HarnessError); ok {
+				panic(r)
+			}
+			err = fmt.Errorf("the node dies during start-up: %v", r)
+		}
+	}()
+	db, err := visor.OpenDB(n.path, false) // the node's own way of opening (and creating) the database file
 	if err != nil {
 		return fmt.Errorf("open: %w", err)
 	}
@@ -370,6 +382,19 @@ func runCrash(c *sim.Ctx) {
 		states = append(states, state{images[k].data, fmt.Sprintf("boundary after commit %d (%s, op %d:%s)", k, images[k].name, images[k].op, copNames[script[images[k].op].kind]), k})
 	}
 	c.CountN("fault.crash_at_commit_boundary", int64(len(images)))
+	// database creation is a commit of its own kind: the file is created empty, then its first four pages are
+	// written with one write and synced.  A crash in between leaves an empty file or a prefix of that write.
+	if initImg := freshDBImage(c); len(initImg) > 0 {
+		states = append(states, state{[]byte{}, "database creation: file created, nothing written yet", 0})
+		c.Count("fault.crash_during_db_creation")
+		cuts := []int{512, pageSize, 2 * pageSize, 3 * pageSize, 1 + c.T.Int("creation-cut", len(initImg)-1)}
+		for _, cut := range cuts[c.T.Int("creation-cut-from", len(cuts)):] {
+			if cut < len(initImg) {
+				states = append(states, state{initImg[:cut], fmt.Sprintf("database creation: first write torn after %d of %d bytes", cut, len(initImg)), 0})
+				c.Count("fault.crash_during_db_creation")
+			}
+		}
+	}
 	tornBudget := 40
 	if c.Tier == "thorough" {
 		tornBudget = 160
@@ -510,6 +535,22 @@ func runCrash(c *sim.Ctx) {
 			return
 		}
 	}
+}
+
+// freshDBImage is what the node's OpenDB writes when it creates a database file.
+func freshDBImage(c *sim.Ctx) []byte {
+	p := filepath.Join(c.Dir, "fresh.db")
+	db, err := visor.OpenDB(p, false)
+	if err != nil {
+		sim.Harnessf("OpenDB on a new path: %v", err)
+	}
+	db.Close()
+	b, err := os.ReadFile(p)
+	os.Remove(p)
+	if err != nil {
+		sim.Harnessf("read fresh image: %v", err)
+	}
+	return b
 }
 
 // hangWhere reduces a state label to its kind so that the signature of a
